@@ -17,6 +17,7 @@ CONSTANTS
   HasFallback = TRUE
   AllowClose = TRUE
   AllowDo = TRUE
+  AllowIndicate = TRUE
   IdleCollects = 0
   RtoChanges = 0
   DeadlineTicks = FALSE
@@ -31,6 +32,7 @@ INVARIANT RoutedByID
 INVARIANT ConnOwnership
 INVARIANT GoroutinesGone
 INVARIANT DoNotStuck
+INVARIANT IndicationsAreNotTransactions
 PROPERTY ClosedStartsRefused
 PROPERTY RtoSnapshot
 ACTION_CONSTRAINT PrintEdge
